@@ -88,7 +88,7 @@ def check(run, replay=None):
                 "x continuation, plus infinite targets and state events; non-trivial = the terminal event fired and a continuation ran; "
                 "distinct by (method, span, mix)")
     if replay and isinstance(replay.get("scenario"), dict) and "modelreplay" in replay["scenario"]:
-        modelreplay.phase(run, [], "C09", ('Events', 'Rows', 'Pieces', 'Status', 'RunTerminates', 'RequestedStep', 'IntegratorCalls'), replay=replay["scenario"]["modelreplay"])
+        modelreplay.phase(run, [], "C09", ('Events', 'Rows', 'Pieces', 'Status', 'Raised', 'RunTerminates', 'RequestedStep', 'IntegratorCalls'), replay=replay["scenario"]["modelreplay"])
         return
     if replay:
         scs = odecore.replay_scenarios(replay)
@@ -109,6 +109,6 @@ def check(run, replay=None):
     odecore.judge_traces(run, scs, traces, PREFIX)
     if not replay:
         # spec -> code: behaviours of the design model with (terminal and non-terminal) events replayed on the real code; events, rows, pieces and status must be the model's at every API return
-        modelreplay.phase(run, ['OdeSystemSim_fixed_nofault', 'OdeSystemSim_adaptive_nofault'], "C09", ('Events', 'Rows', 'Pieces', 'Status', 'RunTerminates', 'RequestedStep', 'IntegratorCalls'), keep=modelreplay.has_events)
+        modelreplay.phase(run, ['OdeSystemSim_fixed_nofault', 'OdeSystemSim_adaptive_nofault'], "C09", ('Events', 'Rows', 'Pieces', 'Status', 'Raised', 'RunTerminates', 'RequestedStep', 'IntegratorCalls'), keep=modelreplay.has_events)
     run.assumptions += ["ground truth is available for time events only (roots defined by the scenario); state events are checked "
                         "on the protocol clauses", "continuation is run without re-arming the event that stopped the run"]
